@@ -46,7 +46,6 @@ F34_overlapping_iteration = _history_is("loop-fork/side-of-iteration-1-still-run
 F35_default_rerun_fail_command = _history_is("fail-command/default-rerun")
 F36_rerun_branch_above_join = _history_is("join-rerun/task1")
 F37_late_failure_marked_terminal = _history_is("remediated/b-reports-first")
-F38_resume_paused_items = _history_is("items-resume/first-report-requested")
 F39_completion_on_resume_term = _history_is("pause-before-last-report/unreachable-join")
 
 
